@@ -273,8 +273,8 @@ func dedup(list []string) []string {
 
 // Stamp is a header stamp handed over in the options.
 type Stamp struct {
-	Prv string `json:"prv"`
-	Val string `json:"val"`
+	Prv string `json:"prv,omitempty"`
+	Val string `json:"val,omitempty"`
 }
 
 // Opts is the option vector; its JSON form is the correction options object
@@ -309,6 +309,9 @@ type Case struct {
 	Code string `json:"code,omitempty"`
 	// SrcDates: the source is given a value_date and an op_date (= its issue date)
 	SrcDates bool `json:"src_dates,omitempty"`
+	// SrcRounding: the source carries its own totals.rounding (-0.01), the one
+	// member of the totals that is an input: business content a replica keeps
+	SrcRounding bool `json:"src_rounding,omitempty"`
 	// Edits applied to the result before the source is compared again (lib
 	// entry): recalc, stamp, sign, append, scribble
 	Edits []string `json:"edits,omitempty"`
@@ -418,7 +421,7 @@ func buildSource(c Case) (*gobl.Envelope, string) {
 	}
 	var env *gobl.Envelope
 	switch {
-	case c.Code == "" && !c.SrcDates:
+	case c.Code == "" && !c.SrcDates && !c.SrcRounding:
 		var err error
 		if env, err = corpus.EnvelopeOf(di.doc.JSON, di.doc.IsEnv); err != nil {
 			return nil, "source-does-not-calculate"
@@ -442,6 +445,14 @@ func buildSource(c Case) (*gobl.Envelope, string) {
 				return nil, "source-without-issue-date"
 			}
 			doc["value_date"], doc["op_date"] = d, d
+		}
+		if c.SrcRounding {
+			tot, _ := doc["totals"].(map[string]any)
+			if tot == nil {
+				tot = map[string]any{}
+			}
+			tot["rounding"] = "-0.01"
+			doc["totals"] = tot
 		}
 		cands := []string{"keep"}
 		switch c.Code {
@@ -1361,7 +1372,7 @@ func judge(c Case, o *vh.Obs) {
 		if c.Op == "correct" && !isDefault(c, def) {
 			o.NonTrivial()
 		}
-		if c.Op == "replicate" && (len(src.Signatures) > 0 || len(src.Head.Stamps) > 0 || c.SrcDates) {
+		if c.Op == "replicate" && (len(src.Signatures) > 0 || len(src.Head.Stamps) > 0 || c.SrcDates || c.SrcRounding) {
 			o.NonTrivial()
 		}
 	} else {
@@ -1375,6 +1386,9 @@ func judge(c Case, o *vh.Obs) {
 	}
 	if c.SrcDates {
 		o.Class("source-with-value-and-op-date")
+	}
+	if c.SrcRounding {
+		o.Class("source-with-own-rounding")
 	}
 
 	before, err := takeSnapshot(src)
@@ -1942,6 +1956,22 @@ func vectors(di *docInfo) []vector {
 		v.headStamps = append(append([]string{}, req...), otherStamp)
 		v.sign = true
 		out = append(out, v)
+		// the header carries every stamp; the options name one provider only,
+		// the last required one, without a value (and another one with an empty
+		// provider): what the options give is used as given, never completed from
+		// whatever the header holds at the same position
+		if len(req) > 0 {
+			v = base(t)
+			v.headStamps = append([]string{otherStamp}, req...)
+			v.sign = true
+			v.opts.Stamps = []Stamp{{Prv: req[len(req)-1]}}
+			out = append(out, v)
+			v = base(t)
+			v.headStamps = append([]string{}, req...)
+			v.sign = true
+			v.opts.Stamps = []Stamp{{Val: "OPT/only-a-value"}}
+			out = append(out, v)
+		}
 		// the same providers handed over in the options with OTHER values while the
 		// header carries its own: the source header must keep its values
 		v = base(t)
@@ -2078,7 +2108,7 @@ func enumSweep(yield func(Case) bool) {
 				if !vh.Thorough() && e != "lib" && si != (di%3) {
 					continue
 				}
-				c := Case{Path: d.doc.Path, Op: "replicate", Entry: e, Sign: sv.sign, HeadStamps: sv.stamps, SrcDates: sv.dates}
+				c := Case{Path: d.doc.Path, Op: "replicate", Entry: e, Sign: sv.sign, HeadStamps: sv.stamps, SrcDates: sv.dates, SrcRounding: sv.dates || (si == 0 && di%2 == 0)}
 				if d.code == "" && sv.sign {
 					c.Code = "set"
 				}
@@ -2215,6 +2245,7 @@ func genCase(t *rapid.T) Case {
 		}
 	}
 	c.SrcDates = rapid.IntRange(0, 3).Draw(t, "src_dates") == 0
+	c.SrcRounding = rapid.IntRange(0, 3).Draw(t, "src_rounding") == 0
 	if c.Op == "replicate" {
 		c.Opts.Stamps = nil
 		return c
@@ -2278,7 +2309,7 @@ func init() {
 			"(2) refusal model from data/regimes + data/addons `corrections` (types/extensions/stamps concatenated regime then addons, reason_required OR-ed): refused iff type missing, source without code, a required stamp missing, types defined and the type not among them, reason required and empty, or the edited source does not calculate; CLI/bulk/exec additionally iff the expected result does not validate. The code must refuse exactly then. "+
 			"(3) on success: new head.uuid, no sigs, no header stamps, digest matches the document, doc.code absent, new doc.uuid, doc.type = requested, exactly one preceding = {uuid,type,series,code,issue_date of the source, reason, ext as requested, the required stamps, tax iff copy_tax}, issue_date = requested or today (window sampled once at start-up), and the whole document equals the source JSON edited accordingly and calculated independently. "+
 			"(4) replica: no code, value_date, op_date; new uuids; no sigs/stamps; issue_date today; rest equals the recalculated source. "+
-			"Non-trivial: the regime/addons publish a correction definition and the option vector is not the all-valid default (first allowed type, a reason, nothing else, all required stamps in the header); replicas: the source is signed or stamped or carries a value_date / op_date.",
+			"Non-trivial: the regime/addons publish a correction definition and the option vector is not the all-valid default (first allowed type, a reason, nothing else, all required stamps in the header); replicas: the source is signed or stamped or carries a value_date / op_date or its own totals.rounding (an input among the totals, which the replica and the correction keep).",
 		"data/regimes/*.json and data/addons/*.json in the tree under test are the referee for what a regime requires; the Go tables are only observed",
 		"extension keys a definition does not offer are not refused by Correct (CorrectionDefinition.Extensions: 'keys that can be included'; nothing in the code or its tests rejects others): the ext must be carried as requested, and only the validating command line paths refuse undefined keys / unpublished codes",
 		"a document without any published correction definition (no regime) accepts any non-empty type in the library (no table to check against); only the validating paths refuse undefined types",
